@@ -102,6 +102,12 @@ impl Searcher {
             }
         }
 
+        // If not even the first iteration completed (hardly any time on the clock) still answer
+        // with a legal move: "bestmove 0000" is only right when there is no legal move
+        if best_move.is_none() {
+            best_move = self.move_generator.generate_moves(board).first().copied();
+        }
+
         (best_score, best_move)
     }
 
